@@ -11,6 +11,8 @@
       nn.Parameter; the frozen features masker is chosen exactly for width groups touching
       inputs / outputs / output-connected nodes and its theta is an all-ones constant; frozen
       time maskers are chosen exactly for strided convolutions.
+ R08e (= C09 R09a/R09e/R09f) op classification and sharing graph agree: depthwise layers keep
+      their producer's masker, width-following ops are not cut out of their group.
 """
 from __future__ import annotations
 
@@ -382,6 +384,18 @@ def run(ctx):
     r08b(ctx)
     r08c(ctx)
     r08d(ctx)
+    # which layers share a masker -- and therefore which layers are frozen with the group that
+    # touches the network interface, and which keep the width of their producer -- is decided by
+    # the op classification and by the sharing graph built from it (C09): a depthwise layer
+    # classified as width-defining gets a trainable masker of its own even when it is tied to
+    # the network input
+    from . import c09
+    before = len(ctx.obligations)
+    c09.r09a(ctx)
+    c09.r09e(ctx)
+    c09.r09f(ctx)
+    for o in ctx.obligations[before:]:
+        o.rule = 'R08e'
     ctx.assume('real (finite or infinite) parameter values: |p| >= 0, 0/1 constant matrices')
     ctx.assume('axis lengths > 1 when distinguishing START from END')
 
